@@ -174,6 +174,77 @@ fn platform_names(n: c_int) -> Vec<String> {
     v
 }
 
+static STEP_GO: std::sync::atomic::AtomicBool = std::sync::atomic::AtomicBool::new(false);
+static STEP_DONE: std::sync::atomic::AtomicBool = std::sync::atomic::AtomicBool::new(false);
+
+/// The helper's registration has done everything up to the wait for the readers of the old snapshot (which, when the
+/// emulation runs inside an action, include the emulating thread itself: it cannot finish before the delivery does).
+fn step_observer(s: u32, _a: usize, _b: usize) {
+    if crate::tid() == 2 && s == crate::site::HL_B_FIRST {
+        STEP_DONE.store(true, std::sync::atomic::Ordering::SeqCst);
+    }
+}
+
+fn step_rendezvous(_k: u64, _rip: usize) {
+    use std::sync::atomic::Ordering;
+    STEP_GO.store(true, Ordering::SeqCst);
+    let mut i = 0u64;
+    while !STEP_DONE.load(Ordering::SeqCst) {
+        i += 1;
+        if i % 64 == 0 {
+            unsafe { libc::sched_yield() };
+        }
+    }
+}
+
+/// The emulation of a signal the library already manages, while another thread registers one more action for the
+/// same signal: that registration runs to completion at the k-th instruction of the emulation (the emulating thread
+/// single-steps itself). The outcome must still be the kernel's default for the signal.
+fn emulated_with_registration_at(n: c_int, inside_action: bool, k: u64) -> (End, bool) {
+    let r = fork::probe(10_000, true, move |fd| {
+        use std::sync::atomic::Ordering;
+        no_core();
+        own_group();
+        all_default_and_unblocked();
+        crate::set_thread(1, crate::class::MAIN);
+        crate::director::install();
+        crate::director::set_observer(Some(step_observer));
+        crate::istep::install();
+        let helper = std::thread::spawn(move || {
+            crate::set_thread(2, crate::class::MUTATOR);
+            while !STEP_GO.load(Ordering::SeqCst) {
+                std::hint::spin_loop();
+            }
+            let _ = unsafe { signal_hook_registry::register(n, || ()) };
+            fork::wr(fd, "FIRED\n");
+            STEP_DONE.store(true, Ordering::SeqCst);
+        });
+        if inside_action {
+            let act = move || {
+                crate::istep::arm(k, 20_000, step_rendezvous);
+                let _ = signal_hook::low_level::emulate_default_handler(n);
+                crate::istep::disarm();
+            };
+            if unsafe { signal_hook_registry::register(n, act) }.is_err() {
+                return 20;
+            }
+            unsafe { libc::raise(n) };
+        } else {
+            if unsafe { signal_hook_registry::register(n, || ()) }.is_err() {
+                return 20;
+            }
+            crate::istep::arm(k, 20_000, step_rendezvous);
+            let _ = signal_hook::low_level::emulate_default_handler(n);
+            crate::istep::disarm();
+        }
+        // still alive: let the helper end
+        STEP_GO.store(true, Ordering::SeqCst);
+        let _ = helper.join();
+        0
+    });
+    (r.end, r.out.contains("FIRED"))
+}
+
 pub fn main(args: &[String]) -> i32 {
     let seed = arg_u64(args, "--seed", 1);
     let t0 = crate::now_ms();
@@ -260,6 +331,43 @@ pub fn main(args: &[String]) -> i32 {
             bad.push((format!("unknown-signal-side-effect-{}", n), format!("register_conditional_default({}) returned an error but left something behind: {}", n, r.out.replace('\n', " "))));
         }
     }
+    // ---- a registration for the same (already managed) signal completes on another thread at the k-th instruction of
+    //      the emulation
+    let stride = arg_u64(args, "--step-stride", 4);
+    let (mut step_trials, mut step_fired) = (0u64, 0u64);
+    if stride > 0 && crate::istep::supported() && bad.is_empty() {
+        'steps: for n in [libc::SIGUSR1, libc::SIGTERM] {
+            let want = classify(&native(n));
+            for inside in [false, true] {
+                let mut k = 1 + seed % stride;
+                let mut misses = 0;
+                while k < 4000 && misses < 12 {
+                    let (e, fired) = emulated_with_registration_at(n, inside, k);
+                    step_trials += 1;
+                    probes += 1;
+                    if matches!(e, End::Timeout) {
+                        inconclusive = Some(format!("stepping probe for signal {} k {} timed out", n, k));
+                        break 'steps;
+                    }
+                    if fired {
+                        step_fired += 1;
+                        misses = 0;
+                        keys.insert(format!("step:{}:{}", n, inside));
+                    } else {
+                        misses += 1;
+                    }
+                    let emu = classify(&e);
+                    if emu != want {
+                        bad.push((format!("default-mismatch-sig{}-with-concurrent-registration", n), format!(
+                            "signal {} {}: another thread registered one more action for the signal while the emulation stood at its instruction #{} (registration done: {}): emulation -> {:?}, kernel default -> {:?}",
+                            n, if inside { "from inside its own action" } else { "from normal context" }, k, fired, emu, want)));
+                        break 'steps;
+                    }
+                    k += stride;
+                }
+            }
+        }
+    }
     let mut nviol = 0;
     let mut seen = std::collections::HashSet::new();
     for (s, d) in bad.iter() {
@@ -276,6 +384,8 @@ pub fn main(args: &[String]) -> i32 {
         .set("distinct_keys", J::arr(keys.iter().map(|k| J::s(k))))
         .set("samples", J::Arr(rows))
         .set("numbers_probed", J::u(numbers.len() as u64))
+        .set("step_trials", J::u(step_trials))
+        .set("step_trials_fired", J::u(step_fired))
         .set("violations", J::u(nviol))
         .set("wall_ms", J::u(crate::now_ms() - t0)));
     if nviol == 0 {
